@@ -275,9 +275,16 @@ class Inliner:
             return None
         rets = [x for x in _walk_no_closure(g["body"]) if x.get("k") == "Ret"]
         tries = [x for x in _walk_no_closure(g["body"]) if x.get("k") == "Try"]
-        if mode == "plain" and (rets or tries):
+        # `return` inside the callee: an error value under `?` (or any value in result position) is the caller's own
+        # return; every other `return v` ends the call with value v, i.e. `break 'inlined v` out of the inlined block
+        if mode == "plain" and tries:
             return None
-        if mode == "try" and not all(x.get("e") is not None and _is_err_value(x["e"]) for x in rets):
+        to_break = set()
+        if mode == "plain":
+            to_break = {id(x) for x in rets}
+        elif mode == "try":
+            to_break = {id(x) for x in rets if not (x.get("e") is not None and _is_err_value(x["e"]))}
+        if to_break and any(x.get("e") is None for x in rets if id(x) in to_break) and (g.get("body") or {}).get("ty") not in ("()",):
             return None
         if self.dry:
             for a in args:
@@ -288,7 +295,14 @@ class Inliner:
         args = [self.tx(a, owner) for a in args]
         _counter[0] += 1
         off = _counter[0] * 1000000
+        blk_id = off + 999999
+        # mark the returns that become breaks before copying (deepcopy loses identity)
+        for x in rets:
+            if id(x) in to_break:
+                x["_to_break"] = True
         body = copy.deepcopy(g["body"])
+        for x in rets:
+            x.pop("_to_break", None)
         subst = {}
         stmts = []
         base = call["sp"][1] + 1 if call.get("sp") else 0
@@ -331,16 +345,20 @@ class Inliner:
                     continue
                 if key == "sp" and isinstance(v, list) and len(v) >= 2 and isinstance(v[0], int):
                     x["sp"] = [base + rank[v[0]], base + rank[v[1]]] + list(v[2:])
-                elif key == "lid" and isinstance(v, int):
-                    x["lid"] = v + off
+                elif key in ("lid", "id", "target") and isinstance(v, int):
+                    x[key] = v + off
                 elif isinstance(v, (dict, list)):
                     x[key] = fix(v)
             x["inl"] = target
+            if x.get("k") == "Ret" and x.pop("_to_break", None):
+                return {"k": "Break", "target": blk_id, "e": x.get("e"), "id": x.get("id"), "ty": "!", "sp": x.get("sp"), "inl": target,
+                        "from_return": True}
             return x
         body = fix(body)
         if body.get("k") != "Block":
             body = {"k": "Block", "stmts": [], "expr": body, "ty": call.get("ty"), "sp": call.get("sp")}
-        blk = {"k": "Block", "id": call.get("id"), "stmts": stmts + list(body.get("stmts") or ()), "expr": body.get("expr"),
+        blk = {"k": "Block", "id": blk_id if to_break else call.get("id"), "stmts": stmts + list(body.get("stmts") or ()), "expr": body.get("expr"),
+               **({"label": "'inlined"} if to_break else {}),
                "ty": call.get("ty"), "sp": list(call.get("sp") or [0, 0, 0, 0]), "inl": target, "inl_root": True}
         if call.get("mac") is not None:
             blk["mac"] = call["mac"]
